@@ -365,7 +365,7 @@ def model_final(model, s):
     return out
 
 
-def witness_traces(oid, words, enter, exit_, timeout_ms, mutant=None, n=3):
+def witness_traces(oid, words, enter, exit_, timeout_ms, mutant=None, n=3, stats=None):
     """Translator validation: schedules chosen by Z3 from the *model* (no safety predicate asserted) that the real
     functions must follow line for line, ending in the model's final state.  Trace j: j=0 initial GC enabled, all
     threads complete; j=1 initial GC disabled, all complete; j>=2 a seed-dependent partial order over events of
@@ -374,6 +374,14 @@ def witness_traces(oid, words, enter, exit_, timeout_ms, mutant=None, n=3):
 
     seed = int(__import__("os").environ.get("VERIF_SEED", "0"))
     out = []
+    stats = stats if stats is not None else {}
+
+    def chk(s):
+        t0 = time.time()
+        r = str(s.check())
+        stats["queries"] = stats.get("queries", 0) + 1
+        stats["solver_s"] = stats.get("solver_s", 0.0) + time.time() - t0
+        return r
     for j in range(n):
         s, events, bad, gc0 = encode(words, enter, exit_, timeout_ms, witness=("prefix" if j >= 2 else True))
         rnd = random.Random(f"{seed}:{oid}:{j}")
@@ -397,9 +405,9 @@ def witness_traces(oid, words, enter, exit_, timeout_ms, mutant=None, n=3):
             for w in wishes:  # each wish is kept only if Z3 finds it feasible together with the earlier ones
                 s.push()
                 s.add(w)
-                if str(s.check()) != "sat":
+                if chk(s) != "sat":
                     s.pop()
-        if str(s.check()) != "sat":
+        if chk(s) != "sat":
             continue
         m = s.model()
         sched, which, g0 = extract_schedule(m, events, bad, gc0)
@@ -506,7 +514,11 @@ def run_obligation(oid, params, tier):
             res["detail"] = f"vacuity twin {twin} returned {r}: the encoding cannot reach a violation it must reach"
         return res
     if str(r) == "unsat":
-        res["validate"] = witness_traces(oid, params["words"], enter, exit_, timeout_ms)
+        st = {}
+        res["validate"] = witness_traces(oid, params["words"], enter, exit_, min(timeout_ms, 60000), stats=st)
+        res["queries"] += st.get("queries", 0)
+        res["solver_s"] = round(res["solver_s"] + st.get("solver_s", 0.0), 3)
+        res["sample"]["witness_queries"] = st.get("queries", 0)
     if str(r) == "unknown":
         res["status"] = "inconclusive"
         res["inconclusive"] = [f"solver unknown after {dt:.0f}s ({s.reason_unknown()})"]
